@@ -82,6 +82,8 @@ const (
 	trimEvery       = 20000
 	quickCap        = 6000
 	quickCapSlot    = 2000
+	eventCapQuick   = 25        // contained events (process death, hang, allocation above the bound) per corpus source and shard, then the rest of that source is skipped
+	eventCapThor    = 150       // (each such event costs a process start; an entry point with a known unbounded allocation would otherwise dominate the run)
 	executorASRoom  = 512 << 20 // the executor runs under RLIMIT_AS = its virtual size at start + this
 	quickHavoc      = 20000
 	thoroughHavoc   = 500000
@@ -98,6 +100,7 @@ type outcome struct {
 	Stack    string
 	Alloc    uint64 // first reading (runtime/metrics)
 	Exact    uint64 // confirming reading (ReadMemStats), 0 if the first reading was within the bound
+	AllocBy  string // function responsible for most of the allocation (profiled third run), set when Exact is above the bound
 	Hang     bool
 	Retire   bool   // the executor exits after this answer (it made a big allocation: the next case gets a clean address space)
 	Fatal    string // crash summary when the executor process died on this case
@@ -124,6 +127,13 @@ func execLocal(m *hostile.Meter, wd *hostile.Watchdog, e *entry, key string, in 
 			defer func() { recover() }()
 			o.Exact = hostile.MeasureExact(func() { e.call(in) })
 		}()
+		wd.End()
+	}
+	if !e.live && o.Exact > hostile.Bound(len(in)) {
+		// name the code that allocates: a third, profiled run
+		service.VerifResetReplayCache()
+		wd.Begin(e.name, key, in)
+		o.AllocBy = hostile.AllocSite(func() { e.call(in) })
 		wd.End()
 	}
 	if o.Alloc > 64<<20 {
@@ -258,7 +268,7 @@ func (h *harness) violation(fp, what string, key string, in []byte, extra map[st
 }
 
 // runCase executes one case of entry e with input in and records what was observed.
-func (h *harness) runCase(e *entry, key string, in []byte) {
+func (h *harness) runCase(e *entry, key string, in []byte) (event bool) {
 	h.n++
 	if h.n%trimEvery == 0 {
 		hostile.TrimProgress()
@@ -281,11 +291,11 @@ func (h *harness) runCase(e *entry, key string, in []byte) {
 		} else {
 			h.r.Inconclusive(fmt.Sprintf("executor process died (%s) at case %q without a frame of the code under test: %s", o.Fatal, key, o.Log))
 		}
-		return
+		return true
 	case o.Hang:
 		st[7]++
 		h.violation(prop+"|"+e.name+"|hang", fmt.Sprintf("%s did not return within %v", e.name, hangBudget), key, in, map[string]any{"entry": e.name})
-		return
+		return true
 	case o.Panicked:
 		st[4]++
 		h.violation(prop+"|"+e.name+"|"+o.Site+"|"+o.Class, fmt.Sprintf("%s panicked: %s", e.name, o.Val), key, in,
@@ -301,13 +311,33 @@ func (h *harness) runCase(e *entry, key string, in []byte) {
 		switch {
 		case e.live:
 			st[5]++
+			event = true
+			h.contain[e.name] = true
 			h.violation(prop+"|"+e.name+"|alloc-bound", fmt.Sprintf("%s allocated %d bytes for a reply of %d bytes (bound %d)", e.name, o.Alloc, len(in), bound), key, in,
 				map[string]any{"entry": e.name, "allocated_bytes": o.Alloc, "bound": bound})
 		case o.Exact > bound:
 			st[5]++
+			event = true
 			h.contain[e.name] = true // the rest of this entry runs in the executor: huge allocations are cheap to contain there
-			h.violation(prop+"|"+e.name+"|alloc-bound", fmt.Sprintf("%s allocated %d bytes for an input of %d bytes (bound %d)", e.name, o.Exact, len(in), bound), key, in,
-				map[string]any{"entry": e.name, "allocated_bytes": o.Exact, "allocated_bytes_first_reading": o.Alloc, "bound": bound})
+			by := o.AllocBy
+			if by == "" {
+				by = "unattributed"
+			}
+			// outside the rpc dependency the entry point and the allocating function identify the defect;
+			// inside it the package does (one root cause: element counts read from the stream are not
+			// checked against the bytes that remain)
+			fp := prop + "|" + e.name + "|alloc-bound|" + by
+			if strings.HasPrefix(by, "github.com/jcmturner/rpc/") {
+				pkg := by
+				if i := strings.LastIndex(pkg, "/"); i > 0 {
+					if j := strings.Index(pkg[i:], "."); j > 0 {
+						pkg = pkg[:i+j]
+					}
+				}
+				fp = prop + "|alloc-bound|" + pkg
+			}
+			h.violation(fp, fmt.Sprintf("%s allocated %d bytes for an input of %d bytes (bound %d), most of them in %s", e.name, o.Exact, len(in), bound, by), key, in,
+				map[string]any{"entry": e.name, "allocated_bytes": o.Exact, "allocated_bytes_first_reading": o.Alloc, "bound": bound, "allocated_by": by})
 		default:
 			h.r.Inc("alloc_exceedance_not_confirmed")
 		}
@@ -315,6 +345,7 @@ func (h *harness) runCase(e *entry, key string, in []byte) {
 	if h.n%flushEvery == 0 {
 		h.flush()
 	}
+	return event
 }
 
 // mine decides whether this shard runs the case, honouring the restart protocol.
@@ -353,6 +384,16 @@ func (h *harness) runEntry(e *entry) {
 			cfg.QuickCap = quickCapSlot
 		}
 		pre := e.name + "|" + src + strconv.Itoa(idx) + "|"
+		events, capped := 0, int64(0)
+		evCap := eventCapQuick
+		if h.thorough {
+			evCap = eventCapThor
+		}
+		defer func() {
+			if capped > 0 {
+				h.r.Count("cases_skipped_after_event_cap:"+e.name, capped)
+			}
+		}()
 		// the unmodified input first
 		if key := pre + "seed;"; h.mine(key) {
 			in := append([]byte{}, base...)
@@ -375,6 +416,10 @@ func (h *harness) runEntry(e *entry) {
 					h.cut++
 					continue
 				}
+				if events >= evCap {
+					capped++
+					continue
+				}
 				in := cl.Build(n)
 				if in == nil {
 					continue
@@ -382,7 +427,9 @@ func (h *harness) runEntry(e *entry) {
 				if build != nil {
 					in = build(in)
 				}
-				h.runCase(e, key, in)
+				if h.runCase(e, key, in) {
+					events++
+				}
 			}
 		}
 	}
@@ -563,7 +610,7 @@ func executorMain(t *testing.T) {
 				for _, e := range es {
 					by[e.name] = e
 					if e.name == "credentials.CCache.Unmarshal" && ccacheClient != nil {
-						c := ccacheClient(e.items)
+						c := ccacheClient([]item{e.items[0], e.items[1], e.items[4]})
 						by[c.name] = c
 					}
 				}
@@ -623,6 +670,7 @@ func TestProp(t *testing.T) {
 	r.Assume("valid corpus inputs are minted by the reference models ref/kmsg, ref/kcrypto, ref/pac, ref/keytab, ref/ccache, ref/conf, ref/gss and the MIT/AD vectors of v8/test/testdata (used as data)")
 	r.Note("exemption: an ETYPE-INFO2 s2kparams iteration count above 2^20 (and the count 0, which RFC 3962 defines as 2^32) has unbounded specified cost; such inputs are detected after decoding, skipped and counted (exempt:<entry>)")
 	r.Note("quick tier does not measure statement coverage; absence of panics is established only on the paths the mutations reach")
+	r.Note(fmt.Sprintf("event cap: after %d (quick) / %d (thorough) contained events (process death, hang, allocation above the bound) from one corpus source in one shard, the remaining cases of that source in that shard are skipped and counted (cases_skipped_after_event_cap:<entry>); the cap only takes effect for entry points that already have such a finding", eventCapQuick, eventCapThor))
 	r.Note("session-store blobs (credentials.Credentials.Unmarshal, gob) are produced by the process itself and are not treated as external input")
 	r.Note("after the first process-fatal event of an entry point in a shard (attributed by the driver), the remaining cases of that entry point run in a sacrificial executor process; its deaths are recorded with the driver's fingerprint C04|fatal|<fatal line> @ <frame>. The executor runs under a tight address-space limit (its size at start + 512 MiB) so that a multi-gigabyte allocation dies at once instead of being zeroed page by page; any allocation that large is above the bound for every input of the workload")
 
